@@ -729,7 +729,26 @@ func runMirror(c *Ctx) {
 						core.NamedOf(cal.Signature.Recv().Type()) == "graph.Graph" && mutators[cal.Name()] {
 						r := ci.Common().Args[0]
 						if !isFreshGraph(p, r) {
-							bad = "calls mutator " + cal.Name() + " on a graph that is not a private copy at " + p.InstrPos(in)
+							// a private step that is only ever handed a private copy (`g = g.Copy(); … g.release(n, S)`)
+							viaSites := false
+							if prm, isPrm := core.Strip(r).(*ssa.Parameter); isPrm && prm.Parent() == f && p.PrivateHelper(f) {
+								idx := -1
+								for i, q := range f.Params {
+									if q == prm {
+										idx = i
+									}
+								}
+								sites := p.Callers(f)
+								viaSites = idx >= 0 && len(sites) > 0
+								for _, site := range sites {
+									if idx >= len(site.Common().Args) || !isFreshGraph(p, site.Common().Args[idx]) {
+										viaSites = false
+									}
+								}
+							}
+							if !viaSites {
+								bad = "calls mutator " + cal.Name() + " on a graph that is not a private copy at " + p.InstrPos(in)
+							}
 						}
 					}
 				}
